@@ -54,7 +54,7 @@ CPU_S = 120
 
 def shards(tier, seed):
     n = 16
-    per = {"quick": 60, "thorough": 1500}[tier]
+    per = {"quick": 60, "thorough": 1200}[tier]
     per = int(os.environ.get("VERIF_C12_PER", per))
     return [{"seed": seed * 1000 + i, "n": per, "idx": i, "nsh": n, "tier": tier} for i in range(n)]
 
@@ -451,7 +451,11 @@ class Minimiser:
         if route_tag:
             tags.append("route=" + route_tag)
         sig = d["rule"] + ("/" + ",".join(tags) if tags else "")
-        return {"sig": sig, "msg": d["detail"], "case": {"pages": pages, "opts": opts, "route": route, "uid": uid, "rule": d["rule"]}}
+        # renumber so that the same minimal witness is the same JSON whatever dump it came from
+        renum = {p["uid"]: i for i, p in enumerate(pages)}
+        pages = [dict(p, uid=renum[p["uid"]]) for p in pages]
+        return {"sig": sig, "msg": d["detail"],
+                "case": {"pages": pages, "opts": opts, "route": route, "uid": renum.get(uid), "rule": d["rule"]}}
 
 
 # ------------------------------------------------------------------ one dump
@@ -482,8 +486,9 @@ class Monitor:
         if p is None:
             return (d["rule"], route)
         fe = info["feats"].get(uid, set())
-        key = [d["rule"], ns_class(opts["lang"], p["ns"]) if p["ns"] in (0, 10, 828) else "other-ns", p["model"],
-               p.get("redirect") is not None] + sorted(f for f in fe if f.startswith(("title:", "dup:")))
+        _, rest = split_title(opts["lang"], p)
+        key = [d["rule"], d.get("hint", ""), ns_class(opts["lang"], p["ns"]) if p["ns"] in (0, 10, 828) else "other-ns", p["model"],
+               p.get("redirect") is not None] + sorted(f for f in fe if f.startswith(("title:", "dup:"))) + title_feats(rest)
         if d["rule"].startswith("altered"):
             key += sorted(f for f in fe if f.startswith(("body:", "tbody:")))
         return tuple(key)
